@@ -23,6 +23,10 @@ RULE = ("documents of C13 (top level / list item / block quote x indented / fenc
         "non-trivial = fault not in the first block; distinct = distinct documents")
 
 
+SYNTAX_FAULTS = ["fry(1 g x%d)) oops", "fry(1 g x%d)) oops", "100 g flour%d,", "sauce%d =", "stock%d :=", "1 g x%d = = y", "'unterminated%d", "{1 g x%d",
+                 "x%d y z :", "a%d, = b", "mix(1 g a%d,, b)", "1 g x%d , ", "dough%d = \t", "fry(1 g x%d) y"]
+
+
 def stmt_lines(block_text):
     """indices of lines that start a statement (approximation: non-blank lines not inside parentheses)"""
     out, depth = [], 0
@@ -77,8 +81,9 @@ def gen_case(rng, eol):
         stmts[si] = "serve(  1/2 of unknown%d)" % rng.randint(0, 99)
         col = stmts[si].index("1/2") + 1
     if kind == "syntax":
-        stmts[si] = "fry(1 g x)) oops"
-        col = stmts[si].index("))") + 2
+        # a stray or missing token that the grammar rejects on this very line, whatever follows in the block
+        stmts[si] = rng.choice(SYNTAX_FAULTS) % rng.randint(0, 99)
+        col = 1
     first = True
     for (g, b, ss) in all_blocks:
         for _ in range(rng.randint(0, 2)):
